@@ -40,7 +40,7 @@ for p in props:
     })
 man = {
     "version": 1,
-    "setup_cmd": "cd /verif/mirfacts && cargo build --release --offline",
+    "setup_cmd": "cd /verif/mirfacts && cargo build --release --offline && cd /verif && ./check warm",
     "hooks": {
         "guard": "melda_verif",
         "enable": "none needed: the checks read the unmodified source through a rustc_private driver (RUSTC_WORKSPACE_WRAPPER under cargo +nightly check); no cfg-guarded code was added to the repository",
